@@ -191,4 +191,20 @@ VARIANTS = [
         {"file": HC, "old": TAIL, "new": "        self._deliver(region, message, should_handle)\n\n"
                                         "    def _deliver(self, region, message, should_handle):\n"
                                         + TAIL.replace("        if should_handle:\n            region.message_handler", "        if True:\n            region.message_handler")}]},
+    # ------------------------------------------------------------------ round 4
+    {"name": "R3 ids above everything seen are taken as new without a lookup", "file": BC, "expect": "C19.R3",
+     "old": "        if packet_id in self.seen_reliable:\n            return False\n",
+     "new": "        if self.seen_reliable and packet_id > max(self.seen_reliable[-3:]):\n"
+            "            self.seen_reliable.append(packet_id)\n            return True\n"
+            "        if packet_id in self.seen_reliable:\n            return False\n"},
+    {"name": "P R3 empty-memory fast path", "file": BC, "expect": "silent",
+     "old": "        if packet_id in self.seen_reliable:\n            return False\n",
+     "new": "        if not self.seen_reliable:\n            self.seen_reliable.append(packet_id)\n            return True\n"
+            "        if packet_id in self.seen_reliable:\n            return False\n"},
+    {"name": "R1 send_acks silently skips without a transport", "file": BC, "expect": "C19.R1",
+     "old": "        logging.debug(\"%r acking %r\" % (direction, to_ack))\n",
+     "new": "        logging.debug(\"%r acking %r\" % (direction, to_ack))\n        if self.transport is None:\n            return\n"},
+    {"name": "P R1 send_acks skips an empty id list", "file": BC, "expect": "silent",
+     "old": "        logging.debug(\"%r acking %r\" % (direction, to_ack))\n",
+     "new": "        if not to_ack:\n            return\n        logging.debug(\"%r acking %r\" % (direction, to_ack))\n"},
 ]
